@@ -109,6 +109,9 @@ class Block2Cache:
     def __init__(self):
         # FIXME: introduce an actual parameter here
         self._completes = TimeoutDict(numbers.TransportTuning().MAX_TRANSMIT_WAIT)
+        # block key -> marker of the latest block-0 request whose rendering
+        # is still under way
+        self._rendering = {}
 
     async def extract_or_insert(
         self, req: Message, response_builder: Callable[[], Awaitable[Message]]
@@ -130,8 +133,18 @@ class Block2Cache:
             # even if the new rendering turns out not to need storing (fits
             # into one block, or is an error)
             self._completes.discard(block_key)
-            assembled = await response_builder()
+            marker = object()
+            self._rendering[block_key] = marker
+            try:
+                assembled = await response_builder()
+            finally:
+                # A block-0 request that arrived while this one was being
+                # rendered has superseded it, whether or not it is done yet
+                superseded = self._rendering.get(block_key) is not marker
+                if not superseded:
+                    del self._rendering[block_key]
         else:
+            superseded = False
             try:
                 assembled = self._completes[block_key]
             except KeyError:
@@ -145,7 +158,8 @@ class Block2Cache:
                 or req.opt.block2.block_number != 0
             )
         ):
-            self._completes[block_key] = assembled
+            if not superseded:
+                self._completes[block_key] = assembled
 
             block2 = req.opt.block2 or BlockOption.BlockwiseTuple(
                 0, 0, req.remote.maximum_block_size_exp
